@@ -1,6 +1,7 @@
 /-
-Model of GRANDPA justification verification (after the two `fix:` commits recorded in
-harness/C19/findings.json):
+Model of GRANDPA justification verification (after the `fix:` commits recorded in
+harness/C19/findings.json: cmp.Compare comparator in ValidateCommit, summed duplicate weights in
+NewVoterSet, unsigned bounds check in the vote graph):
 
   pkg/finality-grandpa/voter_set.go   NewVoterSet, threshold, Get/Contains
   pkg/finality-grandpa/lib.go         ValidateCommit
